@@ -7,7 +7,7 @@ from .. import flow
 from ..engine import Ctx
 from ..model import dotted, unparse
 from . import common as C
-from .brokers import inmem_event
+from .brokers import inmem_event, piq_sites
 from .ladder import affine
 
 SUMMARY = "Consistency table of the Redis queue discipline (push end, window end, page advance, scan direction, removal end); in-memory FIFO access discipline."
@@ -54,9 +54,9 @@ def discipline(ctx: Ctx, rule="R-C15-DISCIPLINE") -> None:
               f"new: {ends[False]} ({new_end}), returned (in_front): {ends[True]} ({ret_end})",
               f"redis __put_in_queue pushes new messages with {ends[False]} and returned ones with {ends[True]}: a returned message must go to the consumption end, a new one to the other end",
               instance="push ends")
-    callers = {op: [c for c in ast.walk(ctx.func(f"{C.REDIS_BROKER}.{op}").node) if isinstance(c, ast.Call) and (dotted(c.func) or "").endswith("__put_in_queue")] for op in ("enqueue", "reject", "requeue")}
-    ctx.check(all(len(v) == 1 for v in callers.values()) and not C.kw(callers["enqueue"][0], "in_front") and C.is_const(C.kw(callers["reject"][0], "in_front"), True)
-              and C.is_const(C.kw(callers["requeue"][0], "in_front"), True), rule, C.REDIS_BROKER, "enqueue pushes behind, reject/requeue push in front", "in_front only for returned messages",
+    callers = {op: piq_sites(ctx, ctx.func(f"{C.REDIS_BROKER}.{op}")) for op in ("enqueue", "reject", "requeue")}
+    ctx.check(all(len(v) == 1 for v in callers.values()) and (C.arg(callers["enqueue"][0], 3, "in_front") is None or C.is_const(C.arg(callers["enqueue"][0], 3, "in_front"), False))
+              and C.is_const(C.arg(callers["reject"][0], 3, "in_front"), True) and C.is_const(C.arg(callers["requeue"][0], 3, "in_front"), True), rule, C.REDIS_BROKER, "enqueue pushes behind, reject/requeue push in front", "in_front only for returned messages",
               "redis enqueue/reject/requeue do not use in_front as 'returned messages go in front'", instance="in_front usage")
     consumption_end = ret_end
     # fetch window
